@@ -326,6 +326,51 @@ func (in *instrumenter) rewriteFile(p *pkgInfo, f *ast.File, name string, write 
 		}
 	}
 
+	// receives in `v, ok := <-ch` context, and channel operations that are the
+	// communication of a select case (left real; select is not virtualised)
+	commaOK := map[*ast.UnaryExpr]bool{}
+	inSelect := map[ast.Node]bool{}
+	unparen := func(e ast.Expr) ast.Expr {
+		for {
+			p, ok := e.(*ast.ParenExpr)
+			if !ok {
+				return e
+			}
+			e = p.X
+		}
+	}
+	ast.Inspect(f, func(n ast.Node) bool {
+		switch x := n.(type) {
+		case *ast.AssignStmt:
+			if len(x.Lhs) == 2 && len(x.Rhs) == 1 {
+				if u, ok := unparen(x.Rhs[0]).(*ast.UnaryExpr); ok && u.Op == token.ARROW {
+					commaOK[u] = true
+				}
+			}
+		case *ast.ValueSpec:
+			if len(x.Names) == 2 && len(x.Values) == 1 {
+				if u, ok := unparen(x.Values[0]).(*ast.UnaryExpr); ok && u.Op == token.ARROW {
+					commaOK[u] = true
+				}
+			}
+		case *ast.CommClause:
+			if x.Comm != nil {
+				ast.Inspect(x.Comm, func(m ast.Node) bool {
+					switch y := m.(type) {
+					case *ast.SendStmt:
+						inSelect[y] = true
+					case *ast.UnaryExpr:
+						if y.Op == token.ARROW {
+							inSelect[y] = true
+						}
+					}
+					return true
+				})
+			}
+		}
+		return true
+	})
+
 	var funcStack []string
 	curFunc := func() string {
 		if len(funcStack) == 0 {
@@ -380,12 +425,37 @@ func (in *instrumenter) rewriteFile(p *pkgInfo, f *ast.File, name string, write 
 				stmtList(x.Body)
 			case *ast.CommClause:
 				stmtList(x.Body)
-				in.noteUnseamed(relFile, x.Pos(), "select communication clause (channel operations are not virtualised)")
+				if x.Comm != nil {
+					in.noteUnseamed(relFile, x.Pos(), "select communication clause (select is not virtualised; a select that must wait ends in the watchdog)")
+				}
 			case *ast.SendStmt:
-				in.noteUnseamed(relFile, x.Pos(), "channel send (not virtualised)")
+				if !inSelect[x] {
+					// ch <- v   ->   simrt.Send(ch, v)
+					add(off(x.Chan.Pos()), 0, rt+".Send(")
+					add(off(x.Arrow), 2, ",")
+					add(off(x.Value.End()), 0, ")")
+					in.res.Seams["chan_send"]++
+				}
 			case *ast.UnaryExpr:
-				if x.Op == token.ARROW {
-					in.noteUnseamed(relFile, x.Pos(), "channel receive (not virtualised)")
+				if x.Op == token.ARROW && !inSelect[x] {
+					fn := ".Recv("
+					if commaOK[x] {
+						fn = ".Recv2("
+					}
+					add(off(x.OpPos), 2, rt+fn)
+					add(off(x.X.End()), 0, ")")
+					in.res.Seams["chan_recv"]++
+				}
+			case *ast.CallExpr:
+				if id, ok := x.Fun.(*ast.Ident); ok && id.Name == "close" && len(x.Args) == 1 {
+					isBuiltin := true
+					if obj, ok := p.info.Uses[id]; ok {
+						_, isBuiltin = obj.(*types.Builtin)
+					}
+					if isBuiltin {
+						add(off(id.Pos()), len("close"), rt+".Close")
+						in.res.Seams["chan_close"]++
+					}
 				}
 			case *ast.RangeStmt:
 				if tv, ok := p.info.Types[x.X]; ok && tv.Type != nil {
@@ -395,7 +465,9 @@ func (in *instrumenter) rewriteFile(p *pkgInfo, f *ast.File, name string, write 
 						add(off(x.X.End()), 0, ")")
 						in.res.Seams["map_range"]++
 					case *types.Chan:
-						in.noteUnseamed(relFile, x.Pos(), "range over channel (not virtualised)")
+						add(off(x.X.Pos()), 0, rt+".ChanIter(")
+						add(off(x.X.End()), 0, ")")
+						in.res.Seams["chan_range"]++
 					}
 				}
 			case *ast.GoStmt:
